@@ -40,7 +40,7 @@ PID = "C08"
 CORPUS = os.path.join(vflib.VERIF, "corpus", "c08")
 SRC = ["checks/c08_netfuzz.c", "harness/mx_wraps.c"]
 DEPS = ["checks/c08_mutator.c"]
-WRAPS = ("psGetEntropy", "gettimeofday", "time", "clock_gettime")
+WRAPS = ("psGetEntropy", "gettimeofday", "time", "clock_gettime", "eccMulmod", "pstm_exptmod")
 
 ASAN_OPTS = ("detect_leaks=1:malloc_context_size=12:allocator_may_return_null=1:"
              "detect_stack_use_after_return=0:print_summary=1")
@@ -109,6 +109,9 @@ def leak_keys(leak):
 def crash_keys(target, text):
     """All violation keys in one libFuzzer process's stderr -> [(key, excerpt)]."""
     out = []
+    if "verif-build" not in vflib.SCRATCH:
+        # vflib.sanitizer_keys recognises library frames by the default scratch path
+        text = text.replace(vflib.SCRATCH, "/var/tmp/verif-build")
     for m in ORACLE_RE.finditer(text):
         out.append((m.group(1), text[max(0, m.start() - 200):m.start() + 1800]))
     if not out:
@@ -350,7 +353,7 @@ def run_target(binary, target, budget, seed, outroot, max_restarts, watchdog):
             tr.incon.append("%s: %s" % (target, hm.group(1)))
             break
         if rc == 0:
-            if "DONE" not in text and done < remaining:
+            if done < remaining:
                 tr.incon.append("%s: libFuzzer stopped after %d of %d runs (watchdog -max_total_time=%d)" % (target, done, remaining, watchdog))
             break
         keys = crash_keys(target, text)
